@@ -23,7 +23,8 @@ EXPLANATION = (
     "combinations are compared as value graphs after the substitution points<->weights, in the "
     "two properties and in the vectorised integration route; the chunked route must chunk both "
     "streams with the same size expression and consume them with one zip; the reported size must be "
-    "the cardinality of the same product.  Any asymmetry pairs weights with the wrong points, so "
+    "the cardinality of the same product; the accumulation loops take every (points, weight) pair.  "
+    "Any asymmetry pairs weights with the wrong points, so "
     "each rule is a necessary condition of every clause of the statement.  NOT decided: numerical "
     "equality of the three evaluation routes.")
 RULE = "one instance per paired enumeration (properties, integrate), per chunk stream, per size branch"
